@@ -41,3 +41,19 @@ Lemma tie_toLambert (pr : projection (T:=R)) e (w : wgs84 (T:=R)) :
   src_toLambert ROps (w_lon w) (w_lat w) e (p_xs pr) (p_c pr) (p_n pr) (p_lon0 pr) (p_ys pr)
   = (v2x (toLambert ROps pr e w), v2y (toLambert ROps pr e w)).
 Proof. reflexivity. Qed.
+
+(* ENUConverter::setAnchor: the 3x3 block written column by column equals the model's frame (rows of the generated tuple
+   are rows of the matrix).  The only representational difference is the literal 0.0 in the east column. *)
+From Romea Require Import EnuModel.
+
+Lemma dec_0_0 : IZR 0 * powerRZ 10 0 = 0.
+Proof. simpl. lra. Qed.
+
+Lemma tie_enuFrame lat lon :
+  src_enuFrame ROps lat lon =
+  (let m := frame_rotation ROps lat lon in
+   (m00 m, m01 m, m02 m, m10 m, m11 m, m12 m, m20 m, m21 m, m22 m)).
+Proof.
+  unfold src_enuFrame, frame_rotation. cbn [m00 m01 m02 m10 m11 m12 m20 m21 m22 nofDec nzero nmul ROps].
+  rewrite dec_0_0. reflexivity.
+Qed.
